@@ -46,3 +46,65 @@ def mc_variance(sum_, sumsq, n):
     # S^2 = 1/(N-1) [ 1/N sum f^2 - E^2 ]
     e = div(sum_, n)
     return div(sub(div(sumsq, n), mul(e, e)), sub(n, ONE))
+
+
+# ---- combining results (mc_helper.hpp doc of weighted_with_variance / weighted_equally /
+# chi_square_dof; results.dox) --------------------------------------------------------------------
+def elem(R, i, field):
+    return fld(sel(R, i), field)
+
+
+def elem_value(R, i):
+    return mc_value(elem(R, i, 'sum_'), elem(R, i, 'calls_'))
+
+
+def elem_variance(R, i):
+    return mc_variance(elem(R, i, 'sum_'), elem(R, i, 'sum_of_squares_'), elem(R, i, 'calls_'))
+
+
+def wv_weight_sum(R, n, k):
+    # sum over results with non_zero_calls != 0 of 1/S_i^2
+    return ('sum', k, ZERO, n, ite(T.cmp('!=', elem(R, k, 'non_zero_calls_'), ZERO),
+                                   div(ONE, elem_variance(R, k)), ZERO))
+
+
+def wv_weighted_values(R, n, k):
+    return ('sum', k, ZERO, n, ite(T.cmp('!=', elem(R, k, 'non_zero_calls_'), ZERO),
+                                   mul(div(ONE, elem_variance(R, k)), elem_value(R, k)), ZERO))
+
+
+def wv_estimate(R, n, k):
+    # E = sum(E_i/S_i^2) / sum(1/S_i^2)
+    return div(wv_weighted_values(R, n, k), wv_weight_sum(R, n, k))
+
+
+def wv_variance(R, n, k):
+    # S^2 = 1 / sum(1/S_i^2)
+    return div(ONE, wv_weight_sum(R, n, k))
+
+
+def counter_sum(R, n, k, field):
+    return ('sum', k, ZERO, n, elem(R, k, field))
+
+
+def we_mean(R, n, k):
+    return div(('sum', k, ZERO, n, elem_value(R, k)), n)
+
+
+def we_variance(R, n, k):
+    # standard error of the mean squared: (sum E_i^2 / M - E^2) / (M - 1)
+    m = we_mean(R, n, k)
+    return div(sub(div(('sum', k, ZERO, n, mul(elem_value(R, k), elem_value(R, k))), n), mul(m, m)),
+               sub(n, ONE))
+
+
+def chi2_dof(R, n, k, mean):
+    # sum (E_i - E)^2 / S_i^2 / (n - 1)
+    d = sub(elem_value(R, k), mean)
+    return div(('sum', k, ZERO, n, div(mul(d, d), elem_variance(R, k))), sub(n, ONE))
+
+# Consequences used by the property text (paper derivation from the forms above, positive S_i^2):
+#   weights w_i = 1/S_i^2 > 0  =>  E = sum w_i E_i / sum w_i is a convex combination, hence
+#   min E_i <= E <= max E_i;  1/S^2 = sum w_i >= w_i  =>  S <= S_i for every i;
+#   both sums are commutative reductions whose terms depend on the current element only
+#   (rule R4), hence the result does not depend on the order of the results.
